@@ -873,9 +873,9 @@ def plan(tier):
   if tier == "quick":
     return [
       Enum("permutations", lambda: _enum(4), shards=16),
-      Hyp("histories", lambda: _strategy(tier), examples=2400, shards=16),
+      Hyp("histories", lambda: _strategy(tier), examples=2000, shards=16),
     ]
   return [
     Enum("permutations", lambda: _enum(5), shards=16),
-    Hyp("histories", lambda: _strategy(tier), examples=60000, shards=16),
+    Hyp("histories", lambda: _strategy(tier), examples=100000, shards=16),
   ]
